@@ -686,7 +686,7 @@ pub struct DecodeOpts {
 
 impl Default for DecodeOpts {
     fn default() -> Self {
-        DecodeOpts { read_data: true, max_depth: 64, max_file_read: 64 << 20 }
+        DecodeOpts { read_data: true, max_depth: 120, max_file_read: 64 << 20 }
     }
 }
 
